@@ -90,18 +90,27 @@ struct Lin
   // locations below an interrupted set (one that ended in an injected bad_alloc): the property
   // says nothing about how much of such a call took effect, so reads of these locations and
   // their final values are not judged
-  std::array<bool, LOCS> tainted{};
+  // tainted[k]: bit v set = an interrupted set(S, v) with S a prefix of location k exists; such a
+  // location may hold what the completed calls give it, or v
+  std::array<unsigned, LOCS> tainted{};
 
-  bool read_ok(LOp const &o, Model const &m) const
+  static bool level_explains(LOp const &o, int lv)
   {
-    if (tainted[index_of(o.path)])
-      return true;
-    int const lv = m.get(o.path);
     if (o.kind == Kind::get || o.kind == Kind::level)
       return lv == o.result;
     if (o.kind == Kind::enabled)
       return (lv != NONE && o.arg >= lv) == (o.result != 0);
     return true;
+  }
+  bool read_ok(LOp const &o, Model const &m) const
+  {
+    if (level_explains(o, m.get(o.path)))
+      return true;
+    unsigned const extra = tainted[index_of(o.path)];
+    for (int v = 0; v <= NONE; ++v)
+      if ((extra & (1U << v)) != 0 && level_explains(o, v))
+        return true;
+    return false;
   }
 
   bool search(std::uint64_t done, Model const &m)
@@ -115,7 +124,7 @@ struct Lin
       if (!check_final)
         return true;
       for (unsigned k = 0; k < LOCS; ++k)
-        if (!tainted[k] && m.level[k] != final_state.level[k])
+        if (m.level[k] != final_state.level[k] && (tainted[k] & (1U << final_state.level[k])) == 0)
           return false;
       return true;
     }
@@ -391,7 +400,7 @@ struct World
 
     // ---- history checks
     std::vector<LOp> protected_ops, lockfree;
-    std::array<bool, LOCS> tainted{};
+    std::array<unsigned, LOCS> tainted{};
     auto collect = [&](FiberState const &f) {
       for (OpInfo const &i : f.info)
       {
@@ -403,7 +412,7 @@ struct World
           // an interrupted set: everything below its location is out of the judged universe
           for (unsigned k = 0; k < LOCS; ++k)
             if (is_prefix(i.path, path_of(k)))
-              tainted[k] = true;
+              tainted[k] |= 1U << i.arg;
           ctx.probe("interrupted_set_locations_not_judged");
         }
         else if (i.kind == Kind::set || i.kind == Kind::get)
